@@ -19,8 +19,8 @@ CONFIG = {
     "quick": {"flavours": ["real", "complex"], "shards": 8, "examples": 400, "min_nontrivial": 200, "budget_s": 120},
     "thorough": {"flavours": ["real", "complex"], "shards": 16, "examples": 150, "min_nontrivial": 500, "budget_s": 3300},
 }
-REQUIRED_CLASSES = {"quick": ["window=0", "window=1", "window>=2", "distinct-indices", "shrinking-recompute", "growing-recompute"],
-                    "thorough": ["window=0", "window=1", "window>=2", "window>=5", "distinct-indices", "shrinking-recompute", "growing-recompute"]}
+REQUIRED_CLASSES = {"quick": ["window=0", "window=1", "window>=2", "distinct-indices", "shrinking-recompute", "growing-recompute", "computed-once-before-its-inputs"],
+                    "thorough": ["window=0", "window=1", "window>=2", "window>=5", "distinct-indices", "shrinking-recompute", "growing-recompute", "computed-once-before-its-inputs"]}
 
 
 @st.composite
@@ -33,7 +33,9 @@ def strategy_(draw, tier):
     wmax = 4 if tier == "quick" else 8
     # the same Vertex4 object is re-computed with a sequence of window sizes (growing, shrinking, repeated, zero)
     Ws = draw(st.lists(st.integers(0, wmax), min_size=1, max_size=4))
-    return {"model": mdl, "comp": list(comp), "windows": Ws}
+    # early: the vertex is compute()d once with the first window size before its Green's functions are computed, then the sequence starts
+    early = draw(st.integers(0, 3)) == 3
+    return {"model": mdl, "comp": list(comp), "windows": Ws, "early": early}
 
 
 def strategy(tier):
@@ -44,7 +46,7 @@ def execute(case, ctx):
     mdl = case["model"]; beta = mdl["beta"]
     i, j, k, l = case["comp"]; Ws = case["windows"]; W = max(Ws)
     lo, hi = -W - 3, W + 2
-    q = [("ops", "ops 0"), ("V", "vertex ct %d %d %d %d %s %d %d" % (i, j, k, l, ",".join(map(str, Ws)), lo, hi))]
+    q = [("ops", "ops 0"), ("V", "vertex ct %d %d %d %d %s %d %d" % (i, j, k, l, ("e" if case.get("early") else "") + ",".join(map(str, Ws)), lo, hi))]
     run = ModelRun(ctx, mdl, q, timeout=300)
     classes = model_classes(mdl)
     g = pipeline_guard(run, classes, run.qlines["ops"])
@@ -98,6 +100,8 @@ def execute(case, ctx):
         classes.append("growing-recompute")
     if len({i, j}) == 2 and len({k, l}) == 2:
         classes.append("distinct-indices")
+    if case.get("early"):
+        classes.append("computed-once-before-its-inputs")
     return Result("ok", sorted(set(classes)), anynz)
 
 
